@@ -7,6 +7,7 @@ from pyvc.api import (FnCheck, SeqCheck, LoopSpec, Pure, Inline, register, Build
                       StrS, NONE, Raise, Unsupported, fresh, vany, vint, vreal, vbool, vstr, vref, as_int, unbox_as,
                       truthy, field)
 from pyvc.state import FRESH_BASE
+from contracts.lib import is_lock
 
 TR = 'sdc11073.mdib.transactions'
 PM = 'sdc11073.mdib.providermdib'
@@ -115,7 +116,11 @@ class TransactionManager(FnCheck):
     def post(self, ex, st0, st, outcome, b):
         steps = st.ghost['steps']
         names = [n for n, _ in steps]
-        both = lambda lk: any(k.endswith('_tr_lock') for k in lk) and any(k.endswith('mdib_lock') for k in lk)  # noqa: E731
+        both = lambda lk: any(is_lock(k, '_tr_lock') for k in lk) and any(is_lock(k, 'mdib_lock') for k in lk)  # noqa: E731
+        if not names:
+            # nothing happened at all (only possible when entering the locks fails): no transaction, no commit
+            ex.oblige(st, 'transaction_is_created', z3.BoolVal(outcome[0] == 'exc'), info={'outcome': repr(outcome[1])})
+            return
         ex.oblige(st, 'everything_inside_both_locks', z3.BoolVal(all(both(lk) for _, lk in steps)))
         ex.oblige(st, 'current_transaction_always_reset', z3.BoolVal(names[-1] == 'current:=None'))
         ex.oblige(st, 'body_runs_on_the_created_transaction', z3.BoolVal(
@@ -1491,3 +1496,139 @@ class RmDescriptorsAndStates(FnCheck):
     def post(self, ex, st0, st, outcome, b):
         if outcome[0] == 'exc':
             ex.oblige(st, 'raises_only_what_a_table_operation_raises', z3.BoolVal(outcome[1].cls == '*'), info={'exc': repr(outcome[1])})
+
+
+@register
+class UpdateCorrespondingContextStates(FnCheck):
+    id = 'C02.update_corresponding_context_states'
+    prop = 'C02'
+    target = f'{TR}:DescriptorTransaction._update_corresponding_state'
+    field_types = {'DescriptorVersion': 'int', 'StateVersion': 'int', 'is_context_descriptor': 'bool'}
+    doc = ('_update_corresponding_state(descriptor) for a context descriptor: EVERY context state the MDIB holds for the '
+           'descriptor - associated or not, bound or unbound - is part of the transaction afterwards (a state that was '
+           'not yet in it is queued as a copy with StateVersion + 1 whose old item is the stored object; a state that '
+           'is deleted in this transaction stays deleted), and every such new state refers to this descriptor object '
+           'and carries its DescriptorVersion. Consumers drop the context states that a description update does not '
+           'list, so a state left out here would silently disappear there (C01)')
+    trusted = ('context_states.descriptor_handle.get (C11): all states of the descriptor',)
+    feasibility_ematch_only = True
+    feasibility_timeout_ms = 400
+
+    def setup(self, b):
+        st = b.st
+        ids = b.ex.ctx.builtin_class_ids
+        self.dv = b.int('new_descriptor_version')
+        self.handle = b.str('handle')
+        self.descr = b.obj('descriptor', DescriptorVersion=self.dv, Handle=self.handle, is_context_descriptor=b.bool('is_context_descriptor'))
+        st.assume(Val.b(z3.Select(st.get_arr('f:is_context_descriptor'), self.descr.e)))
+        self.ALL = z3.Const('context_states_of_the_descriptor', SeqVal)
+        self.all_list = b.obj('index_entry')
+        st.assume(z3.Select(st.get_arr('C'), self.all_list.e) == ids['list'])
+        st.assume(z3.Select(st.get_arr('L'), self.all_list.e) == self.ALL)
+        x = z3.Const('x!cs', Val)
+        self.F_handle = st.get_arr('f:Handle')
+        st.assume(z3.ForAll([x], z3.Implies(z3.Contains(self.ALL, z3.Unit(x)), z3.And(
+            Val.is_ref(x), Val.oid(x) > 0, Val.oid(x) < FRESH_BASE, Val.is_str(z3.Select(self.F_handle, Val.oid(x)))))))
+        self.upd = b.obj('updates_dict')
+        st.assume(z3.Select(st.get_arr('C'), self.upd.e) == ids['dict'])
+        st.assume(z3.Select(st.get_arr('DN'), self.upd.e) >= 0)
+        # items already in the transaction: TransactionItem objects whose `new` is None (deleted) or a state object
+        self.dk0 = z3.Select(st.get_arr('DK'), self.upd.e)
+        self.dv0 = z3.Select(st.get_arr('DV'), self.upd.e)
+        k = z3.Const('k!it', Val)
+        new0 = z3.Select(st.get_arr('f:new'), Val.oid(z3.Select(self.dv0, k)))
+        st.assume(z3.ForAll([k], z3.Implies(z3.Select(self.dk0, k), z3.And(
+            Val.is_ref(z3.Select(self.dv0, k)), Val.oid(z3.Select(self.dv0, k)) > 0, Val.oid(z3.Select(self.dv0, k)) < FRESH_BASE,
+            z3.Or(Val.is_none(new0), z3.And(Val.is_ref(new0), Val.oid(new0) > 0, Val.oid(new0) < FRESH_BASE))))))
+        idx = b.obj('context_states.descriptor_handle')
+        mdib = b.obj('mdib', context_states=b.obj('context_states', descriptor_handle=idx))
+        self.o = b.obj('self', cls=(TR, 'DescriptorTransaction'), _mdib=mdib)
+        b.distinct(self.o, self.descr, self.upd, mdib, self.all_list, idx)
+        return self.o, [self.descr], {}
+
+    def hd(self, x):
+        return z3.Select(self.F_handle, Val.oid(x))
+
+    def callees(self, ex):
+        def item(ex_, st, args, kwargs):
+            o = st.alloc('TransactionItem')
+            st.write_field(o, 'old', args[0])
+            st.write_field(o, 'new', args[1])
+            return o
+
+        def upd_version(ex_, st, args, kwargs):
+            recv = ex_.concrete_kind(st, vany(st.ghost['c:recv']), ('ref',))
+            dc = z3.Select(st.get_arr('f:descriptor_container'), recv.e)
+            st.set_arr('f:DescriptorVersion', z3.Store(st.get_arr('f:DescriptorVersion'), recv.e,
+                                                       z3.Select(st.get_arr('f:DescriptorVersion'), Val.oid(dc))))
+            return NONE
+        return {f'{TR}:DescriptorTransaction._get_states_update': Pure(lambda e, s, a, k: self.upd, name='_get_states_update -> context_state_updates'),
+                'self._mdib.context_states.descriptor_handle.get': Pure(lambda e, s, a, k: self.all_list, name='context_states.descriptor_handle.get(handle, []) (C11)'),
+                '*.update_descriptor_version': Pure(upd_version, name='state.update_descriptor_version (C02.update_descriptor_version)'),
+                'sdc11073.mdib.transactionsprotocol:TransactionItem': Pure(item, name='TransactionItem(old, new)'),
+                f'{TR}:TransactionItem': Pure(item, name='TransactionItem(old, new)'), 'TransactionItem': Pure(item, name='TransactionItem(old, new)')}
+
+    def hooks(self, ex):
+        base = CopyHooks()
+
+        class H:
+            tracked_names = CopyHooks.tracked_names
+
+            @staticmethod
+            def on_call(ex_, st, fv, keys, args, kwargs, node):
+                if fv.t == 'method':
+                    st.ghost['c:recv'] = st.box(fv.recv)
+                return base.on_call(ex_, st, fv, keys, args, kwargs, node)
+        return H
+
+    def _wf_items(self, st):
+        k = z3.Const('k!wf', Val)
+        dk, dvv = z3.Select(st.get_arr('DK'), self.upd.e), z3.Select(st.get_arr('DV'), self.upd.e)
+        it = z3.Select(dvv, k)
+        new = z3.Select(st.get_arr('f:new'), Val.oid(it))
+        return z3.ForAll([k], z3.Implies(z3.Select(dk, k), z3.And(Val.is_ref(it), z3.Or(Val.is_none(new), Val.is_ref(new)))))
+
+    def _covered(self, st, x):
+        """x is part of the transaction: an item is queued under its handle; its new state (unless deleted) refers to this
+        descriptor and carries its version"""
+        dk, dvv = z3.Select(st.get_arr('DK'), self.upd.e), z3.Select(st.get_arr('DV'), self.upd.e)
+        it = z3.Select(dvv, self.hd(x))
+        new = z3.Select(st.get_arr('f:new'), Val.oid(it))
+        return z3.And(z3.Select(dk, self.hd(x)), Val.is_ref(it), z3.Or(Val.is_none(new), z3.And(
+            Val.is_ref(new),
+            z3.Select(st.get_arr('f:descriptor_container'), Val.oid(new)) == Val.ref(self.descr.e),
+            Val.i(z3.Select(st.get_arr('f:DescriptorVersion'), Val.oid(new))) == self.dv.e)))
+
+    def loops(self, ex):
+        def inv(ex_, st, env):
+            goals = {'frame': z3.And(z3.Select(st.get_arr('L'), self.all_list.e) == self.ALL,
+                                     z3.Select(st.get_arr('f:DescriptorVersion'), self.descr.e) == Val.int(self.dv.e),
+                                     z3.Select(st.get_arr('C'), self.upd.e) == ex_.ctx.builtin_class_ids['dict'],
+                                     z3.Select(st.get_arr('DN'), self.upd.e) >= 0),
+                     'queued_items_are_transaction_items': self._wf_items(st)}
+            if env['_phase'] == 'preserve':
+                # end of an arbitrary iteration (also when it ends with `continue`): the state it looked at is covered
+                cs = st.locals.get('context_state')
+                goals['the_state_of_this_iteration_is_in_the_transaction'] = \
+                    self._covered(st, st.box(cs)) if cs is not None else z3.BoolVal(False)
+            return goals
+        return {0: LoopSpec(inv=inv, havoc_heap=['DK', 'DV', 'DN', 'f:new', 'f:old', 'f:descriptor_container',
+                                                 'f:DescriptorVersion', 'f:StateVersion', 'f:DescriptorHandle',
+                                                 'f:is_context_state'], prefix=True)}
+
+    def finish(self, ex, st0, outcomes, b):
+        names = {o.name for o in ex.ctx.obligations}
+        if 'loop0.inv_preserved.the_state_of_this_iteration_is_in_the_transaction' not in names:
+            ex.oblige(st0, 'loop_over_all_context_states_exists', z3.BoolVal(False))
+        # the loop must run over the complete index entry: no `break`, no early return out of it
+        import ast as _ast
+        mod, cdef, fn = ex.repo.find(self.target)
+        loops = [n for n in _ast.walk(fn) if isinstance(n, _ast.For)]
+        early = [n for lp in loops[:1] for n in _ast.walk(lp) if isinstance(n, (_ast.Break, _ast.Return))]
+        ex.oblige(st0, 'loop_visits_every_context_state_of_the_descriptor', z3.BoolVal(bool(loops) and not early))
+
+    def post(self, ex, st0, st, outcome, b):
+        if outcome[0] == 'exc':
+            ex.oblige(st, 'never_raises', z3.BoolVal(False), info={'exc': repr(outcome[1])})
+            return
+        ex.oblige(st, 'index_entry_untouched', z3.Select(st.get_arr('L'), self.all_list.e) == self.ALL)
